@@ -8,7 +8,7 @@
     10  model set_val (real)     fmt r o raw arr vd              -> codes, flags, read-back values
 *)
 From Coq Require Import ZArith List Bool.
-From FxpVerif Require Import Spec SpecArith NP Store Status Convert Arith Div Conv Bitwise Strings Wire.
+From FxpVerif Require Import Spec SpecArith NP Store Status Convert Arith Div Conv Bitwise Strings Dtype Wire.
 Import ListNotations.
 Open Scope Z_scope.
 
@@ -143,5 +143,12 @@ Definition dispatch (req : list Z) : list Z :=
                    eoutcome (fun z => [z])
                      (if (hexp : bool) then strhex2int s n digits
                       else match bits_of_str digits with Some l => strbin2int s n l | None => Exc ValueError end)) t
+  (* 80: render (f, complex) in fxp and Q notation; 81: parse a dtype string *)
+  | 80 :: t => run (f <- dfmt ;; cx <- dbool ;; dret (f, cx))
+                (fun '(f, cx) => elist (fun x => [x]) (codes_of_string (render_fxp f cx)) ++ elist (fun x => [x]) (codes_of_string (render_q f))) t
+  | 81 :: t => run (dlist dZ)
+                (fun l => match parse_dtype (string_of_codes l) with
+                          | Some (s, n, fr, cx) => [0] ++ ebool s ++ [n; fr] ++ ebool cx
+                          | None => [1] end) t
   | _ => bad_request
   end.
